@@ -270,6 +270,35 @@ def run(ctx):
                   msg=f"read_bytes({total}) when the peer closes after {have} byte(s): {kinds or 'no exit (keeps reading an ended stream)'}, specified ['raise EOFError']",
                   key=f"read_bytes EOF {total}/{have}", node=program.func(uid), rel="jupyter_kernel.py")
 
+    ctx.rule("R19.11", "the greeting handshake consumes exactly the peer's 64 greeting bytes however the stream is fragmented (a short read would leave greeting bytes "
+             "in the stream, which the frame reader then takes for frame headers)", floor=3)
+    uid = f"{Z}.handshake"
+    for chunk in (1, 7, 64):
+        def reader_read(interp, node, args, kwargs, cfg, out, chunk=chunk):
+            n = args[0].v if args and isinstance(args[0], Const) else None
+            src = cfg.heap.get("$src")
+            take = min(chunk, n if n is not None else chunk, len(src.v))
+            return [(cfg.hset("$src", Const(src.v[take:])), Const(src.v[:take]))]
+
+        def reader_exactly(interp, node, args, kwargs, cfg, out):
+            src = cfg.heap.get("$src")
+            n = args[0].v
+            return [(cfg.hset("$src", Const(src.v[n:])), Const(src.v[:n]))]
+
+        nop = lambda interp, node, args, kwargs, cfg, out: [(cfg, NONE)]  # noqa: E731
+        pol = FlowPolicy(program, may_raise_all=False, cancel=False, inline={"self.read_bytes", "ZmqSocket.read_bytes"},
+                         summaries={"self.reader.read": reader_read, "self.reader.readexactly": reader_exactly, "self.write_bytes": nop, "self.send_cmd": nop})
+        pol.loop_unroll = 80
+        follow = _frame(9, 3)
+        out = run_flow(program, uid, pol, args={"self": ObjV("self", "ZmqSocket")}, heap={"$src": Const(_frame(64, 17) + follow), "self.type": Const("ROUTER")})
+        ex = exits(out)
+        rest = [c.heap.get("$src") for k, c, d in ex if k == "return"]
+        ok = len(ex) == 1 and len(rest) == 1 and rest[0] == Const(follow)
+        ctx.check(ok, "R19.11", uid, f"greeting delivered {chunk} byte(s) per read",
+                  msg=f"handshake with the peer's greeting arriving {chunk} byte(s) per read: "
+                  + (f"{64 + 9 - len(rest[0].v)} of the 64 greeting bytes consumed" if len(rest) == 1 and isinstance(rest[0], Const) else f"exits {[(k, d) for k, c, d in ex]}")
+                  + " - what is left is parsed as frames of the first message", key=f"handshake chunk {chunk}", node=program.func(uid), rel="jupyter_kernel.py")
+
     ctx.rule("R19.3", "a wire message is returned only after its signature was compared with the HMAC of its frames; the key state is copied per message", floor=4)
     uid = f"{K}.deserialize_wire_msg"
     f = program.func(uid)
